@@ -95,7 +95,8 @@ type DefaultClientDispatcher struct {
 	onRequestCancel     func(requestID string, request ocpp.Request, err *ocpp.Error)
 	timer               *time.Timer
 	paused              bool
-	stopped             bool // set by Stop until the next Start: requestChannel is closed
+	stopped             bool       // set by Stop until the next Start: requestChannel is closed
+	completeMutex       sync.Mutex // makes CompleteRequest atomic: a reply and the timeout of the same request may be handled at the same time
 	timeout             time.Duration
 }
 
@@ -219,8 +220,8 @@ func (d *DefaultClientDispatcher) messagePump() {
 				// Current request timed out. Removing request and triggering cancel callback
 				el := d.requestQueue.Peek()
 				bundle, _ := el.(RequestBundle)
-				d.CompleteRequest(bundle.Call.UniqueId)
-				if d.onRequestCancel != nil {
+				// The reply may have arrived at the very moment of the timeout and have concluded the request already
+				if d.completeRequest(bundle.Call.UniqueId) && d.onRequestCancel != nil {
 					d.onRequestCancel(bundle.Call.UniqueId, bundle.Call.Payload,
 						ocpp.NewError(GenericError, "Request timed out", bundle.Call.UniqueId))
 				}
@@ -308,21 +309,31 @@ func (d *DefaultClientDispatcher) signalReady() {
 }
 
 func (d *DefaultClientDispatcher) CompleteRequest(requestId string) {
+	d.completeRequest(requestId)
+}
+
+// completeRequest reports whether it was this call that removed the request from the queue.
+func (d *DefaultClientDispatcher) completeRequest(requestId string) bool {
+	// Looking at the queue head, comparing and removing it must be one step: with the reply and the timeout
+	// of one request handled concurrently, both saw the same head and the second one removed the next request
+	d.completeMutex.Lock()
+	defer d.completeMutex.Unlock()
 	el := d.requestQueue.Peek()
 	if el == nil {
 		log.Errorf("attempting to pop front of queue, but queue is empty")
-		return
+		return false
 	}
 	bundle, _ := el.(RequestBundle)
 	if bundle.Call.UniqueId != requestId {
 		log.Errorf("internal state mismatch: received response for %v but expected response for %v", requestId, bundle.Call.UniqueId)
-		return
+		return false
 	}
 	d.requestQueue.Pop()
 	d.pendingRequestState.DeletePendingRequest(requestId)
 	log.Debugf("removed request %v from front of queue", bundle.Call.UniqueId)
 	// Signal that next message in queue may be sent
 	d.signalReady()
+	return true
 }
 
 // ServerDispatcher contains the state and logic for handling outgoing messages on a server endpoint.
@@ -407,6 +418,7 @@ type DefaultServerDispatcher struct {
 	onRequestCancel     CanceledRequestHandler
 	network             ws.Server
 	mutex               sync.RWMutex
+	completeMutex       sync.Mutex // makes CompleteRequest atomic (a reply and the timeout of the same request may be handled at the same time)
 }
 
 // Handler function to be invoked when a request gets canceled (either due to timeout or to other external factors).
@@ -599,7 +611,10 @@ func (d *DefaultServerDispatcher) messagePump(stoppedC chan struct{}, timerC cha
 					continue
 				}
 				bundle, _ := el.(RequestBundle)
-				d.CompleteRequest(clientID, bundle.Call.UniqueId)
+				// The reply may have arrived at the very moment of the timeout and have concluded the request already
+				if !d.completeRequest(clientID, bundle.Call.UniqueId) {
+					continue
+				}
 				log.Infof("request %v for %v timed out", bundle.Call.UniqueId, clientID)
 				if d.onRequestCancel != nil {
 					d.onRequestCancel(clientID, bundle.Call.UniqueId, bundle.Call.Payload,
@@ -691,21 +706,28 @@ func (d *DefaultServerDispatcher) waitForTimeout(clientID string, clientCtx clie
 }
 
 func (d *DefaultServerDispatcher) CompleteRequest(clientID string, requestID string) {
+	d.completeRequest(clientID, requestID)
+}
+
+// completeRequest reports whether it was this call that removed the request from the client's queue.
+func (d *DefaultServerDispatcher) completeRequest(clientID string, requestID string) bool {
+	d.completeMutex.Lock()
+	defer d.completeMutex.Unlock()
 	q, ok := d.queueMap.Get(clientID)
 	if !ok {
 		log.Errorf("attempting to complete request for client %v, but no matching queue found", clientID)
-		return
+		return false
 	}
 	el := q.Peek()
 	if el == nil {
 		log.Errorf("attempting to pop front of queue, but queue is empty")
-		return
+		return false
 	}
 	bundle, _ := el.(RequestBundle)
 	callID := bundle.Call.GetUniqueId()
 	if callID != requestID {
 		log.Errorf("internal state mismatch: processing response for %v but expected response for %v", requestID, callID)
-		return
+		return false
 	}
 	q.Pop()
 	d.pendingRequestState.DeletePendingRequest(clientID, requestID)
@@ -727,4 +749,5 @@ func (d *DefaultServerDispatcher) CompleteRequest(clientID string, requestID str
 			}
 		}()
 	}
+	return true
 }
